@@ -584,8 +584,8 @@ PROPS = {
     },
     "C04": {
         "lean_modules": ["Dbg.Props.C04"],
-        "theorems": ["Pipeline.C04_sharded_eq_direct", "Pipeline.C04_payloads_agree", "Compress.compressGraph_kdata", "Compress.sharded_result_ginv", "Pipeline.sigmasOK_identity", "Compress.sharded_eq_direct_abstract", "Compress.pgraph_recompress", "Compress.shard_sandwich", "Compress.pgraph_flatten", "Compress.PGraph.ginv", "Pipeline.C04_shard_tables", "Pipeline.C04_shard_filter", "Pipeline.shardCfg_default", "Filter.read_observations", "Filter.table_restrict", "Pipeline.C04_link_pieces", "Pipeline.C04_link_shard", "Pipeline.C04_link_recompress"],
-        "partial": ["PARTITION and PAYLOAD TOTALS are proved end to end (C04_sharded_eq_direct: neither pipeline panics and every node of either graph has exactly the canonical k-mers of some node of the other; C04_payloads_agree: nodes with the same k-mers carry the same saturated count total) for every read set, K>=4, 1<=P<=K, default or injective permutation, stranded or not, every threshold, with or without sharded pruning, every hash order; equality of the adjacencies of the two final graphs is still decided by evaluating the executable predicate on the two real pipelines (both graphs are proved to satisfy GInv with complete find_link)"],
+        "theorems": ["Pipeline.C04_sharded_eq_direct", "Pipeline.C04_payloads_agree", "Pipeline.C04_adjacencies_agree", "Compress.PGraph.adj_iff", "Compress.compressGraph_kdata", "Compress.sharded_result_ginv", "Pipeline.sigmasOK_identity", "Compress.sharded_eq_direct_abstract", "Compress.pgraph_recompress", "Compress.shard_sandwich", "Compress.pgraph_flatten", "Compress.PGraph.ginv", "Pipeline.C04_shard_tables", "Pipeline.C04_shard_filter", "Pipeline.shardCfg_default", "Filter.read_observations", "Filter.table_restrict", "Pipeline.C04_link_pieces", "Pipeline.C04_link_shard", "Pipeline.C04_link_recompress"],
+        "partial": [],
         "n_quick": 1500, "n_thorough": 60000,
         "nontrivial": _c04_nontrivial, "tags": _c04_tags, "shrink": _reads_shrink(8),
         "rule": "requests `sharded K P perm stranded thr prune reads`: both real pipelines on the same read set from the structured generator; (K,P) in "
